@@ -1,0 +1,10 @@
+//go:build verif
+
+package genesis
+
+import "github.com/zenon-network/go-zenon/chain"
+
+// VerifGenesisAccountPool exposes the pool of genesis account blocks built from a configuration.
+func VerifGenesisAccountPool(cfg *GenesisConfig) chain.AccountPool {
+	return newGenesisAccountBlocks(cfg)
+}
